@@ -1425,9 +1425,8 @@ impl SubRule {
                             debug_assert!(res_word.in_bounds(sp));
                             let lc = self.apply_seg_mods(&mut res_word, sp, m, v, out_state.position)?;
                             total_len_change[sp.syll_index] += lc;
-                            if lc > 0 {
-                                last_pos.seg_index += lc.unsigned_abs() as usize;
-                            }
+                            // continue after the whole (possibly long) segment, not inside it
+                            last_pos.seg_index += res_word.seg_length_at(sp) - 1;
                             if self.input.len() == self.output.len() {
                                 if state_index < self.input.len() -1 {
                                     last_pos.seg_index +=1;
@@ -1456,9 +1455,8 @@ impl SubRule {
                         // "Replace with output IPA.
                         let lc = res_word.syllables[sp.syll_index].replace_segment(sp.seg_index, seg, mods, &self.alphas, out_state.position)?;
                         total_len_change[sp.syll_index] += lc;
-                        if lc > 0 {
-                            last_pos.seg_index += lc.unsigned_abs() as usize;
-                        }
+                        // continue after the whole (possibly long) segment, not inside it
+                        last_pos.seg_index += res_word.seg_length_at(sp) - 1;
                         if self.input.len() == self.output.len() {
                             if state_index < self.input.len() -1 {
                                 last_pos.seg_index +=1;
@@ -1484,9 +1482,8 @@ impl SubRule {
                                 if let Some(m) = mods {
                                     let lc = res_word.apply_seg_mods(&self.alphas, m, sp, num.position)?;
                                     total_len_change[sp.syll_index] += lc;
-                                    if lc > 0 {
-                                        last_pos.seg_index += lc.unsigned_abs() as usize;
-                                    }
+                                    // continue after the whole (possibly long) segment, not inside it
+                                    last_pos.seg_index += res_word.seg_length_at(sp) - 1;
                                 }
                                 if self.input.len() == self.output.len() {
                                     if state_index < self.input.len() -1 {
@@ -1577,9 +1574,8 @@ impl SubRule {
                                             if let Some(m) = mods {
                                                 let lc = res_word.apply_seg_mods(&self.alphas, m, sp, set_output[i].position)?;
                                                 total_len_change[sp.syll_index] += lc;
-                                                if lc > 0 {
-                                                    last_pos.seg_index += lc.unsigned_abs() as usize;
-                                                }
+                                                // continue after the whole (possibly long) segment, not inside it
+                                                last_pos.seg_index += res_word.seg_length_at(sp) - 1;
                                             }
                                             if self.input.len() == self.output.len() {
                                                 if state_index < self.input.len() -1 {
@@ -1592,9 +1588,8 @@ impl SubRule {
                                         ParseElement::Matrix(mods, var) => {
                                             let lc = self.apply_seg_mods(&mut res_word, sp, mods, var, set_output[i].position)?;
                                             total_len_change[sp.syll_index] += lc;
-                                            if lc > 0 {
-                                                last_pos.seg_index += lc.unsigned_abs() as usize;
-                                            }
+                                            // continue after the whole (possibly long) segment, not inside it
+                                            last_pos.seg_index += res_word.seg_length_at(sp) - 1;
                                             if self.input.len() == self.output.len() {
                                                 if state_index < self.input.len() -1 {
                                                     last_pos.seg_index +=1;
@@ -1611,9 +1606,8 @@ impl SubRule {
                                                         if let Some(m) = mods {
                                                             let lc = res_word.apply_seg_mods(&self.alphas, m, sp, num.position)?;
                                                             total_len_change[sp.syll_index] += lc;
-                                                            if lc > 0 {
-                                                                last_pos.seg_index += lc.unsigned_abs() as usize;
-                                                            }
+                                                            // continue after the whole (possibly long) segment, not inside it
+                                                            last_pos.seg_index += res_word.seg_length_at(sp) - 1;
                                                         }
                                                         if self.input.len() == self.output.len() {
                                                             if state_index < self.input.len() -1 {
